@@ -18,9 +18,9 @@
 const char* const H_NAME = "c01_mixed";
 const char* const H_PROPERTY = "C01";
 
-enum { M_YIELD = 0, M_MUTEX, M_COND, M_SEM, M_RW, M_BARRIER, M_CHAN, M_MULTI, M_SLEEP, M_DETACH, M_PIPE, M_CLOSESIG, M_NKINDS };
+enum { M_YIELD = 0, M_MUTEX, M_COND, M_SEM, M_RW, M_BARRIER, M_CHAN, M_MULTI, M_SLEEP, M_DETACH, M_PIPE, M_CLOSESIG, M_STORM, M_NKINDS };
 #define MAXMOD 5
-#define MAXF 24
+#define MAXF 96
 typedef struct mod {
   int kind, a, b, c;
   fiber_mutex_t mtx;
@@ -263,7 +263,73 @@ static void* f_closesig(void* p) {
   }
   return NULL;
 }
+/* "storm": everything that defers an action to the next fiber's maintenance step at once, on one mutex:
+ * condition waits (deferred mutex unlock, which yields when a contender is half enqueued), hammering lockers
+ * (such contenders), signal waits and joins (deferred wake-up location), short sleeps (deferred spinlock) */
+static void* f_storm_child(void* p) {
+  (void)p;
+  return NULL;
+}
+static void* f_storm(void* p) {
+  arg_t* a = p;
+  mod_t* m = a->m;
+  const int n = 2 + m->a;
+  switch (a->role) {
+    case 0: /* cond waiter */
+      for (int i = 0; i < n; i++) {
+        RS1(fiber_mutex_lock, &m->mtx);
+        while (m->tokens == 0) RS2(fiber_cond_wait, &m->cond, &m->mtx);
+        m->tokens--;
+        RS1(fiber_mutex_unlock, &m->mtx);
+        op_done();
+      }
+      break;
+    case 1: /* signaller */
+      for (int i = 0; i < n; i++) {
+        RS1(fiber_mutex_lock, &m->mtx);
+        m->tokens++;
+        fiber_cond_signal(&m->cond);
+        RS1(fiber_mutex_unlock, &m->mtx);
+        op_done();
+      }
+      break;
+    case 2: /* hammer */
+      for (int i = 0; i < 3 * n; i++) {
+        fiber_mutex_lock(&m->mtx);
+        fiber_mutex_unlock(&m->mtx);
+        op_done();
+      }
+      break;
+    case 3: /* spawner: create + join short fibers */
+      for (int i = 0; i < n; i++) {
+        fiber_t* c = fiber_create(STK, f_storm_child, NULL);
+        fiber_join(c, NULL);
+        op_done();
+      }
+      break;
+    case 4: /* signal waiter */
+      for (int i = 0; i < n; i++) {
+        fiber_signal_wait(&m->sig);
+        op_done();
+      }
+      m->flag = 1;
+      break;
+    case 5: /* signal raiser: keeps raising until the waiter has had enough (raises coalesce) */
+      while (!m->flag) {
+        fiber_signal_raise(&m->sig);
+        RS0(fiber_yield);
+      }
+      break;
+    default: /* sleeper */
+      for (int i = 0; i < n; i++) {
+        fiber_sleep(0, 0);
+        op_done();
+      }
+  }
+  return NULL;
+}
 static void spawn(void* (*fn)(void*), mod_t* m, int role) {
+  if (nf >= MAXF) sim_violation("SIM-too-many-fibers", "harness table full");
   args[nf].m = m;
   args[nf].role = role;
   fibers[nf] = fiber_create(STK, fn, &args[nf]);
@@ -274,9 +340,9 @@ void h_run(void) {
   nmod = wl_int(1, sim_tier_thorough() ? MAXMOD : 4);
   char d[400];
   int dk = 0;
-  static const char* const kn[] = {"yield", "mutex", "cond", "sem", "rwlock", "barrier", "chan", "multi", "sleep", "detach", "pipe", "close-then-signal"};
+  static const char* const kn[] = {"yield", "mutex", "cond", "sem", "rwlock", "barrier", "chan", "multi", "sleep", "detach", "pipe", "close-then-signal", "storm"};
   for (int i = 0; i < nmod; i++) {
-    M[i].kind = wl_pick(M_NKINDS);
+    M[i].kind = wl_pct(25) ? M_STORM : wl_pick(M_NKINDS);
     M[i].a = wl_int(1, 4);
     M[i].b = wl_pick(2);
     M[i].c = wl_pick(2);
@@ -355,6 +421,19 @@ void h_run(void) {
         if (pipe(m->pfd) != 0) sim_violation("SIM-pipe", "pipe() failed");
         spawn(f_pipe, m, 0);
         spawn(f_pipe, m, 1);
+        break;
+      case M_STORM:
+        fiber_mutex_init(&m->mtx);
+        fiber_cond_init(&m->cond);
+        fiber_signal_init(&m->sig);
+        spawn(f_storm, m, 0);
+        spawn(f_storm, m, 1);
+        spawn(f_storm, m, 2);
+        if (m->b) spawn(f_storm, m, 2);
+        spawn(f_storm, m, 3);
+        spawn(f_storm, m, 4);
+        spawn(f_storm, m, 5);
+        if (m->c) spawn(f_storm, m, 6);
         break;
       case M_CLOSESIG:
         if (pipe(m->pfd) != 0) sim_violation("SIM-pipe", "pipe() failed");
